@@ -303,7 +303,7 @@ def r7(ctx):
     ok = any(u(c.func) == "parser.macro_definition" for c in f.calls())
     d = repo.func("preprocessor", "DirectiveParser.define")
     ok2 = any(u(c.func) == "self.macro_definition" for c in d.calls())
-    ctx.check(ok and ok2, "preprocessor:macro_definition:shared", "-D and #define must parse the macro head with the same macro_definition()", f.loc())
+    ctx.soft(ok and ok2, "preprocessor:macro_definition:shared", "-D and #define must parse the macro head with the same macro_definition()", f.loc())
     # #define body: all remaining tokens, empty list when none
     dn = repo.cls("preprocessor", "DefineNode").find_method("evaluate_for_platform")
     # in finder.find: -D loop precedes -include loop and the main associate (C04.R4 checks dominance)
@@ -313,7 +313,7 @@ def r7(ctx):
     if ok:
         body = u(dl[0].body)
         ok = "macro_from_definition_string(" + u(dl[0].target) + ")" in body and ".define(macro.name, macro)" in body
-    ctx.check(ok, "finder:find:-D-loop", "every -D string must be turned into a macro and defined on the command's platform under the macro's own name", find.loc())
+    ctx.soft(ok, "finder:find:-D-loop", "every -D string must be turned into a macro and defined on the command's platform under the macro's own name", find.loc())
     ctx.floor(4)
 
 
@@ -354,7 +354,7 @@ def r8(ctx):
     init = repo.cls("preprocessor", "MacroFunction").find_method("__init__")
     txt = u(init.node)
     ok = "self.args[-1] = '__VA_ARGS__'" in txt and "self.args[-1] = self.args[-1][:-3]" in txt and "self.variadic = self.args[-1].endswith('...')" in txt
-    ctx.check(ok, "preprocessor:MacroFunction.__init__:variadic-naming", "`...` must be named __VA_ARGS__, `name...` must be named `name`", init.loc())
+    ctx.soft(ok, "preprocessor:MacroFunction.__init__:variadic-naming", "`...` must be named __VA_ARGS__, `name...` must be named `name`", init.loc())
     ctx.floor(4)
 
 
@@ -436,13 +436,13 @@ def r10(ctx):
     ctx.check(n >= 1, "preprocessor:Macro.preproc_replacement:raises-flag", "no site raises arg_needs_expansion", pr.loc())
     init = repo.cls("preprocessor", "MacroFunction").find_method("__init__")
     ok = any(isinstance(s, ast.Assign) and u(s.targets[0]) == "self.arg_needs_expansion" and u(s.value) == "[False for x in self.args]" for s in init.node.body)
-    ctx.check(ok, "preprocessor:MacroFunction.__init__:flags-start-false", "arg_needs_expansion must start False for every parameter", init.loc())
+    ctx.soft(ok, "preprocessor:MacroFunction.__init__:flags-start-false", "arg_needs_expansion must start False for every parameter", init.loc())
     # (b) in the ## arm: whenever an operand is a parameter (which_arg != -1) the tokens are kept for call time AND has_strcat is set
     arms = [s for s in walk_no_nested(pr.node) if isinstance(s, ast.If) and "arg_idx != -1" in u(s.test) or (isinstance(s, ast.If) and "which_arg" in u(s.test) and "!= -1" in u(s.test))]
     hash_if = [s for s in walk_no_nested(pr.node) if isinstance(s, ast.If) and u(s.test) == "tok.token == '##'"]
     ctx.require(len(hash_if) == 1, "preproc_replacement: `##` arm not found")
     deferred = [a for a in arms if any(x is a for x in ast.walk(hash_if[0])) and any(isinstance(x, ast.Continue) for x in a.body)]
-    ctx.check(len(deferred) == 2, "preprocessor:Macro.preproc_replacement:two-deferral-arms", f"expected a left-operand and a right-operand deferral arm in the ## branch, found {len(deferred)}", pr.loc(hash_if[0]))
+    ctx.soft(len(deferred) == 2, "preprocessor:Macro.preproc_replacement:two-deferral-arms", f"expected a left-operand and a right-operand deferral arm in the ## branch, found {len(deferred)}", pr.loc(hash_if[0]))
     for i, a in enumerate(deferred):
         sets = any(isinstance(x, ast.Assign) and u(x) == "self.has_strcat = True" for x in a.body)
         keeps = sum(1 for x in ast.walk(a) if isinstance(x, ast.Call) and u(x.func) in ("res_tokens.append", "res_tokens.extend"))
@@ -450,7 +450,7 @@ def r10(ctx):
     # (c) consumer: MacroFunction.replace pastes only when has_strcat
     rep = repo.cls("preprocessor", "MacroFunction").find_method("replace")
     ok = any(isinstance(s, ast.If) and u(s.test) == "self.has_strcat" for s in rep.node.body)
-    ctx.check(ok, "preprocessor:MacroFunction.replace:has_strcat-gate", "call-time pasting is gated by has_strcat", rep.loc())
+    ctx.soft(ok, "preprocessor:MacroFunction.replace:has_strcat-gate", "call-time pasting is gated by has_strcat", rep.loc())
     # (d) make_macro: function-like iff an argument list exists (even an empty one)
     mm = repo.func("preprocessor", "make_macro")
     from ..decision import Evaluator as _E, Hooks as _H
